@@ -1,0 +1,140 @@
+//go:build verif
+
+// Hooks for the /verif consensus simulator (C01, C02). Add-only, compiled only with -tags verif.
+// They expose state and the pending step timer of the engine and thin constructors for signed
+// messages; they contain no protocol logic.
+
+package consensus
+
+import (
+	"time"
+
+	"github.com/icon-project/goloop/module"
+)
+
+// VerifSimState is a snapshot of the engine's round state.
+type VerifSimState struct {
+	Height      int64
+	Round       int32
+	Step        int
+	LockedRound int32
+	HasTimer    bool
+	Started     bool
+}
+
+const (
+	VerifSimStepNewHeight       = int(stepNewHeight)
+	VerifSimStepTransactionWait = int(stepTransactionWait)
+	VerifSimStepNewRound        = int(stepNewRound)
+	VerifSimStepPropose         = int(stepPropose)
+	VerifSimStepPrevote         = int(stepPrevote)
+	VerifSimStepPrevoteWait     = int(stepPrevoteWait)
+	VerifSimStepPrecommit       = int(stepPrecommit)
+	VerifSimStepPrecommitWait   = int(stepPrecommitWait)
+	VerifSimStepCommit          = int(stepCommit)
+)
+
+func VerifSimGetState(c module.Consensus) VerifSimState {
+	cs := c.(*consensus)
+	cs.mutex.Lock()
+	defer cs.mutex.Unlock()
+	return VerifSimState{
+		Height: cs.height, Round: cs.round, Step: int(cs.step),
+		LockedRound: cs.lockedRound, HasTimer: cs.timer != nil, Started: cs.started,
+	}
+}
+
+// VerifSimFreezeTimer postpones the pending step timer (if any) so that only the harness fires it.
+func VerifSimFreezeTimer(c module.Consensus) {
+	cs := c.(*consensus)
+	cs.mutex.Lock()
+	defer cs.mutex.Unlock()
+	if cs.timer != nil {
+		cs.timer.Reset(1000 * time.Hour)
+	}
+}
+
+// VerifSimFireTimer makes the pending step timer (if any) fire now, through its real closure.
+func VerifSimFireTimer(c module.Consensus) bool {
+	cs := c.(*consensus)
+	cs.mutex.Lock()
+	defer cs.mutex.Unlock()
+	if cs.timer == nil || !cs.started {
+		return false
+	}
+	cs.timer.Reset(0)
+	return true
+}
+
+// VerifSimVoteInfo returns the signer and the exact signed bytes of a vote.
+func VerifSimVoteInfo(m *VoteMessage) (module.Address, []byte) {
+	a := m.address()
+	if a == nil {
+		return nil, m._byteser.bytes()
+	}
+	return a, m._byteser.bytes()
+}
+
+// VerifSimProposalInfo returns the signer and the exact signed bytes of a proposal.
+func VerifSimProposalInfo(m *ProposalMessage) (module.Address, []byte) {
+	a := m.address()
+	if a == nil {
+		return nil, m._byteser.bytes()
+	}
+	return a, m._byteser.bytes()
+}
+
+// VerifSimNewVote signs a vote. psid == nil makes a nil vote (blockID then carries the NID bytes).
+func VerifSimNewVote(w module.Wallet, vt VoteType, height int64, round int32, blockID []byte,
+	psid *PartSetID, appData uint64, ts int64) *VoteMessage {
+	vm := newVoteMessage()
+	vm.Height = height
+	vm.Round = round
+	vm.Type = vt
+	vm.SetRoundDecision(blockID, psid.WithAppData(appData), nil)
+	vm.Timestamp = ts
+	_ = vm.Sign(w)
+	return vm
+}
+
+// VerifSimNewProposal signs a proposal.
+func VerifSimNewProposal(w module.Wallet, height int64, round int32, psid *PartSetID, polRound int32, nid uint32) *ProposalMessage {
+	msg := NewProposalMessage()
+	msg.Height = height
+	msg.Round = round
+	msg.BlockPartSetID = psid
+	msg.POLRound = polRound
+	msg.NID = nid
+	_ = msg.Sign(w)
+	return msg
+}
+
+// VerifSimNewBlockPart builds a block part message.
+func VerifSimNewBlockPart(height int64, index uint16, nonce int32, part []byte) *BlockPartMessage {
+	m := newBlockPartMessage()
+	m.Height = height
+	m.Index = index
+	m.Nonce = nonce
+	m.BlockPart = part
+	return m
+}
+
+// VerifSimNewVoteList builds a vote list message.
+func VerifSimNewVoteList(votes ...*VoteMessage) *VoteListMessage {
+	m := newVoteListMessage()
+	m.VoteList = NewVoteList()
+	for _, v := range votes {
+		m.VoteList.AddVote(v)
+	}
+	return m
+}
+
+// VerifSimMarshal returns the sub-protocol and wire bytes of a message.
+func VerifSimMarshal(m Message) (module.ProtocolInfo, []byte) {
+	return module.ProtocolInfo(m.subprotocol()), msgCodec.MustMarshalToBytes(m)
+}
+
+// VerifSimPSIDAppData encodes (nid, ntsVoteCount) as the engine does.
+func VerifSimPSIDAppData(nid uint32, ntsVoteCount uint16) uint64 {
+	return psidAppData(nid, ntsVoteCount)
+}
